@@ -300,6 +300,7 @@ var vC15ExplainStmts = []string{
 	"float(value) / (float('B') + 1) > 1", "float(value) > 1e20 * A00.0", "int(value) * (A * B) >= 0", "key + 'A' + 'B' = 'aAB'",
 	"int(value) > int('A') - int('B')", "strlen(key) = strlen('A' + 'B') - 1", "float(value) > float(A - B)", "is_int(str(A - B) + value)",
 	"int(value) in (A - B, B - A, A)", "int(value) between A - B and A + B",
+	"int(value) > 0 - 9223372036854775807 - 1", "float(value) < 1e308 * 10.0 + A", "float(value) > 0 - 1e308 * 1B.0", "int(value) > -9223372036854775807 - A",
 }
 
 func VN_C15_EXPLAIN(tier int) int { return len(vC15ExplainStmts) }
